@@ -7,6 +7,8 @@ CONSTANTS Links = {3}
   Ver = 7
   Running = TRUE
   Its = TRUE
+  Faults = TRUE
+  Ob = FALSE
 INVARIANTS NoFalseAlarm FaultDetected
 VIEW AbsView
 CHECK_DEADLOCK FALSE
